@@ -11,7 +11,10 @@ from .tags import name_of, sorted_tags
 _N = itertools.count()
 
 
-def make_processor(env):
+def make_processor(env, lazy_transfers=False):
+    """lazy_transfers: a transfer between two iteration engines that is not going to be materialized (materialize_as is
+    None) returns the source engine's own - possibly lazy - row iterable instead of a list.  The hook's contract asks for
+    a payload "appropriate for caching" only when materialize_as is given."""
     from lsst.daf.relation import Processor, iteration, sql
 
     class RealProcessor(Processor):
@@ -58,6 +61,10 @@ def make_processor(env):
             self._maybe_fail()
             self.log.append(("transfer", source, destination, materialize_as))
             idx = len(self.log) - 1
+            if lazy_transfers and materialize_as is None and not isinstance(destination, sql.Engine) and not isinstance(source.engine, sql.Engine):
+                payload = source.engine.execute(source)
+                self.completed.add(idx)
+                return payload
             rows = self.fetch(source)
             payload = self.payload_for(destination, source.columns, rows, materialize_as)
             self.completed.add(idx)
